@@ -339,48 +339,43 @@ theorem replyRest_quoted (code body : Str) (hc : code.length = 3) :
   · rw [endsWithPySpace_append _ _ (by simp)]
     decide
 
-theorem pdrLoop_body (body rest dir : Str) (hq : '"' ∉ body) :
-    pdrLoop (body ++ rest) 0 true dir = pdrLoop rest 0 true (dir ++ body) := by
+/-- the body of a quoted directory, quotes doubled, followed by the closing quote, decodes to the body —
+    for EVERY body -/
+theorem pdrLoop_body (body dir : Str) :
+    pdrLoop (doubleQuotes body ++ ['"']) true false dir = dir ++ body := by
   induction body generalizing dir with
-  | nil => simp
+  | nil => simp [doubleQuotes, pdrLoop]
   | cons c t ih =>
-    simp only [List.mem_cons, not_or] at hq
-    have hc : c ≠ '"' := fun e => hq.1 e.symm
-    simp only [List.cons_append, pdrLoop]
-    simp only [Bool.not_true, Bool.false_eq_true, ↓reduceIte, hc]
-    rw [if_neg (by decide), if_neg (by decide), ih _ hq.2]
-    simp
+    by_cases hc : c = '"'
+    · subst hc
+      have e : doubleQuotes ('"' :: t) ++ ['"'] = '"' :: '"' :: (doubleQuotes t ++ ['"']) := by
+        simp [doubleQuotes]
+      rw [e]
+      simp only [pdrLoop, Bool.not_true, Bool.false_eq_true, ↓reduceIte, ne_eq, not_true_eq_false]
+      rw [ih]; simp
+    · have e : doubleQuotes (c :: t) ++ ['"'] = c :: (doubleQuotes t ++ ['"']) := by
+        simp [doubleQuotes, hc]
+      rw [e]
+      simp only [pdrLoop, Bool.not_true, Bool.false_eq_true, ↓reduceIte, hc]
+      rw [ih]; simp
 
-theorem pdrLoop_quoted (body : Str) (hq : '"' ∉ body) :
-    pdrLoop (' ' :: (['"'] ++ body ++ ['"'])) 0 false [] = body := by
-  have e : ' ' :: (['"'] ++ body ++ ['"']) = ' ' :: '"' :: (body ++ ['"']) := by simp
+theorem pdrLoop_quoted (body : Str) :
+    pdrLoop (' ' :: (['"'] ++ doubleQuotes body ++ ['"'])) false false [] = body := by
+  have e : ' ' :: (['"'] ++ doubleQuotes body ++ ['"']) = ' ' :: '"' :: (doubleQuotes body ++ ['"']) := by simp
   rw [e]
-  have h1 : pdrLoop (' ' :: '"' :: (body ++ ['"'])) 0 false [] = pdrLoop (body ++ ['"']) 0 true [] := by
+  have h1 : pdrLoop (' ' :: '"' :: (doubleQuotes body ++ ['"'])) false false [] =
+      pdrLoop (doubleQuotes body ++ ['"']) true false [] := by
     simp [pdrLoop]
-  rw [h1, pdrLoop_body body _ _ hq]
-  simp [pdrLoop]
+  rw [h1, pdrLoop_body]; simp
 
-theorem quote_notin_joinWith (ps : List Str) (h : ∀ p ∈ ps, '"' ∉ p) : '"' ∉ joinWith '/' ps := by
-  induction ps with
-  | nil => simp [joinWith]
-  | cons x t ih =>
-    cases t with
-    | nil => simpa [joinWith] using h x (by simp)
-    | cons y r =>
-      simp only [joinWith, List.mem_append, List.mem_cons, not_or]
-      exact ⟨h x (by simp), by decide, ih (fun p hp => h p (by simp [hp]))⟩
+/-- the server doubles the quotes now (read off the source) -/
+theorem pwd_doubles : Generated.pwdDoublesQuotes = true := by decide
 
-/-- PWD round trip for a normal absolute cwd none of whose names contains a double quote -/
-theorem pwd_roundtrip_noquote (ps : List Str) (h : ∀ p ∈ ps, PartOK p) (hq : ∀ p ∈ ps, '"' ∉ p) :
+/-- PWD round trip for EVERY normal absolute cwd, quotes in its names included -/
+theorem pwd_roundtrip_all (ps : List Str) (h : ∀ p ∈ ps, PartOK p) :
     pwdSeenByClient ⟨1, ps⟩ = ⟨1, ps⟩ := by
   unfold pwdSeenByClient fmtPwd parseDirectoryResponse
-  rw [replyRest_quoted _ _ (by rfl)]
-  have hqs : '"' ∉ PPath.str ⟨1, ps⟩ := by
-    have hs : PPath.str ⟨1, ps⟩ = '/' :: joinWith '/' ps := by simp [PPath.str, rootStr]
-    rw [hs]
-    simp only [List.mem_cons, not_or]
-    exact ⟨by decide, quote_notin_joinWith ps hq⟩
-  rw [pdrLoop_quoted _ hqs, parse_str_abs ps h]
+  rw [if_pos pwd_doubles, replyRest_quoted _ _ (by rfl), pdrLoop_quoted, parse_str_abs ps h]
 
 /-! ### MLSx -/
 
